@@ -487,6 +487,16 @@ func init() {
 				}
 			}
 			out = append(out, lb("VerifBigBinary", 8, "op", "quorem", "pat", "none", "maxheap", mh-1))
+			for _, op := range []string{"and", "or", "xor", "andnot", "div", "mod"} {
+				for _, pat := range []string{"none", "zx", "zy", "zxy"} {
+					out = append(out, lb("VerifBigBinary", 2, "op", op, "pat", pat, "maxheap", mh))
+				}
+			}
+			for _, op := range []string{"not", "sqrt"} {
+				for _, pat := range []string{"none", "zx"} {
+					out = append(out, lb("VerifBigUnary", 1, "op", op, "pat", pat, "maxheap", mh))
+				}
+			}
 			for _, op := range []string{"set", "abs", "neg"} {
 				for _, pat := range []string{"none", "zx"} {
 					out = append(out, lb("VerifBigUnary", 1, "op", op, "pat", pat, "maxheap", mh+1))
@@ -502,9 +512,9 @@ func init() {
 			"multi-word products/quotients and the bitwise/shift/exp/gcd methods are uninterpreted functions of the operand values (what is decided is that the wrapper passes the right values and stores the result correctly)",
 			"amd64 layout: 64-bit words, two inline words; intStruct and big.Int have the same layout"}, assumeCommon...),
 		Stubs: []string{"math/big API (Level B): SetBits, Bits, Sign, Cmp, CmpAbs, Set, Abs, Neg, Add, Sub, Mul, Quo, Rem, QuoRem, IsInt64, IsUint64, Int64, Uint64, Bit(0), BitLen exact; Div, Mod, And, Or, Xor, AndNot, Not, Lsh, Rsh, Exp, Sqrt as uninterpreted functions", "math/bits Add64/Sub64/Mul64/Len: documented bit-vector meaning", "noescape: identity"},
-		Bounds: map[string]interface{}{"quick": "ONE inductive step of each method from ARBITRARY valid representations: every operand is inline non-negative, inline negative (non-zero) or heap-backed with up to 1 word (unary/scalar: 2 words), all 64-bit words symbolic, inline words arbitrary even when heap-backed; alias patterns none, z==x, z==y, x==y, z==x==y; methods Add, Sub, Mul, Quo, Rem, QuoRem, Set, Abs, Neg, Sign, Cmp, CmpAbs, IsInt64, IsUint64, Int64, Uint64, Bit(0), BitLen, SetInt64, SetUint64",
+		Bounds: map[string]interface{}{"quick": "ONE inductive step of each method from ARBITRARY valid representations: every operand is inline non-negative, inline negative (non-zero) or heap-backed with up to 1 word (unary/scalar: 2 words), all 64-bit words symbolic, inline words arbitrary even when heap-backed; alias patterns none, z==x, z==y, x==y, z==x==y; methods Add, Sub, Mul, Quo, Rem, QuoRem, And, Or, Xor, AndNot, Div, Mod, Not, Sqrt (the last eight with math/big's result as an uninterpreted function), Set, Abs, Neg, Sign, Cmp, CmpAbs, IsInt64, IsUint64, Int64, Uint64, Bit(0), BitLen, SetInt64, SetUint64",
 			"thorough": "heap operands up to 2 (3) words"},
-		Outside:       []string{"heap values above the stated word count in the pre-state", "text/JSON/Gob/Scan/Format wrappers, Append/SetString fast paths, and the pass-through wrappers And..ModSqrt (not yet harnessed)", "32-bit platforms"},
+		Outside:       []string{"heap values above the stated word count in the pre-state", "text/JSON/Gob/Scan/Format wrappers, Append/SetString fast paths, and the remaining pass-through wrappers (Lsh, Rsh, Exp, GCD, ModInverse, ModSqrt, SetBit, Binomial, MulRange, Rand, DivMod)", "32-bit platforms"},
 		RequireCovers: []string{"big.zero_result", "big.heap_result"}}
 	checkDefs["C15"] = &CheckDef{Prop: "C15", Enable: []string{"C15."},
 		Instances: func(tier string) []Instance {
